@@ -274,6 +274,7 @@ def mutants(spec):
                 s = clone()
                 s["modules"][b]["name"] = s["modules"][a]["name"]
                 s["modules"][a]["style"] = s["modules"][b]["style"] = "proc"
+                s["modules"][a].pop("bare", None); s["modules"][b].pop("bare", None)
                 yield "name_clash", "top" if top in (a, b) else "deep", s
 
 
